@@ -79,7 +79,7 @@ def discharge(eng, obligations, timeout_s=10, jobs=None, solvers=None):
         secs = 0.0
         weak = None
         for k, txt in enumerate(stages):
-            r = solve.solve(txt, timeout_s=timeout_s if k == len(stages) - 1 else min(timeout_s, 6), solvers=solvers, tmpdir=tmpdir)
+            r = solve.solve(txt, timeout_s=timeout_s if k == len(stages) - 1 else min(timeout_s, 15), solvers=solvers, tmpdir=tmpdir)
             secs += r.seconds
             if txt == weak_txt and r.status == "sat":
                 weak = r
